@@ -361,6 +361,15 @@ def _eval_new_ctx(
             _logger.debug(
                 f"_eval_new_ctx: fetched indirect references: {resolved_indirect_refs}"
             )
+            for (p_, k_) in resolved_indirect_refs.items():
+                if not _store().has_blob(k_):
+                    # Found now, before anything runs: at run time fetch_blob would answer None for it.
+                    raise DDSException(
+                        f"The path {p_}, which this evaluation loads, leads to the key {k_}, which the store "
+                        f"{_store()} does not hold. The usual cause is a data directory that was filled through "
+                        f"another internal directory.",
+                        DDSErrorCode.STORE_PATH_NOT_FOUND,
+                    )
         else:
             resolved_indirect_refs = OrderedDict()
 
